@@ -27,7 +27,16 @@ RULE = ('case index i -> defect type (i%4: v,i,s,db) x entry point (direct funct
         'selected in every form (index, negative index, numpy integer, Cartesian, box-relative, through a periodic image, '
         '0.5*atol off the site, integer-valued coordinates) and every refusal class is exercised.  A case is non-trivial when '
         'the system has >= 2 atoms and at least one position-based selection was judged; distinct = fingerprint of '
-        '(cell, positions, types, operation).  Histories: 2-4 chained insertions (all 16 ordered type pairs enumerated first).')
+        '(cell, positions, types, operation).  Histories: 2-4 chained insertions (all 16 ordered type pairs enumerated first).  '
+        'Working units: group "units" = case i -> ordered pair of working-unit configurations (i%25 over {package default, SI, '
+        "length='nm', length='m', random numericalunits seed}^2, every third+fourth block a third stage returning to the first) "
+        'x defect type x entry point x system kind (5) x cell kind/origin x pbc x property/keyword/atol class; the SAME system '
+        'description (held in angstrom) is rebuilt in the units in force at every stage inside one worker process, the standard '
+        'single-case workload and the documented-default-tolerance probes (0.005 A found / 0.05 A refused, default atol vs '
+        "explicit uc.set_in_units(0.01,'angstrom'), default-after-large-explicit) run before and after every switch, the System "
+        'object of the previous stage is probed again under the new units, and all results are compared in angstrom across '
+        'stages; group "units-history" = chained insertions under configuration i%5 after a default-atol call under '
+        'configuration (i//5)%5.  The package default is restored in a finally block.')
 ASSUMPTIONS = [
     'site lookup by position is the 27-image periodic distance of C02 (image coefficients in {-1,0,1} on periodic axes)',
     'all atoms are pairwise farther apart than the search tolerance except a deliberately built pair 0.6*atol apart',
@@ -37,6 +46,12 @@ ASSUMPTIONS = [
     'a vacancy in a one-atom system is out of domain (atomman cannot represent an empty System)',
     'per-type masses are not part of the property statement (their loss is counted, not judged)',
     'oracle shares numpy with the code under test',
+    'working units: the harness hands lengths to atomman through uc.set_in_units(x, "angstrom") and reads them back through '
+    'uc.get_in_units(x, "angstrom") (unit conversion itself is property C09/C10); the oracle only ever sees angstrom; the '
+    'factor is cross-checked against numericalunits and the named configurations, a stage whose units are not as requested '
+    'is skipped and counted (floors then make the run inconclusive)',
+    'a System is a container of numbers: the same object read under other working units is the same cell scaled, and is '
+    'judged as such (class "carried system"), only while its rescaled smallest separation stays >= 0.3 A and its size <= 1e5 A',
 ]
 CONFIG = {'quick': dict(shards=8, seeds=1, timeout=600),
           'thorough': dict(shards=16, seeds=2, timeout=3000)}
@@ -56,29 +71,109 @@ C_REFUSE = 'absent, ambiguous, occupied, same-type or over-specified site is ref
 C_DONE = 'in-domain insertion completes'
 C_COMPOSE = 'old_id composes over successive insertions'
 C_NAMES = 'result carries the input properties plus old_id'
+C_UNITS = 'outcome (in angstrom) does not depend on the working units in force nor on earlier calls'
 
 SINGLE_KEY = 'pos-lookup:single-atom-system'
+
+
+# ---------------------------------------------------------------- working units
+UNIT_CONFIGS = ['default', 'SI', 'nm', 'm', 'random']
+DEFAULT_UNITS = dict(length='angstrom', mass='amu', energy='eV', charge='e')
+EXPECT_FACTOR = {'default': 1.0, 'SI': 1e-10, 'nm': 0.1, 'm': 1e-10}          # one angstrom in working units
+
+
+class _Units:
+    """Harness-side view of the working units.  While ``active`` every length
+    handed to atomman goes through uc.set_in_units(x, 'angstrom') and every
+    length read back goes through uc.get_in_units(x, 'angstrom'), so that the
+    oracle and all bounds stay in angstrom.  Inactive (the groups 'single' and
+    'history'): numbers are passed through untouched (package default units)."""
+    active = False
+    uc = None
+    label = 'default'
+    factor = 1.0
+
+
+U = _Units()
+
+
+def to_wu(x):
+    """angstrom -> working units in force"""
+    if not U.active:
+        return x
+    return U.uc.set_in_units(x, 'angstrom')
+
+
+def to_A(x):
+    """working units in force -> angstrom"""
+    if not U.active:
+        return x
+    return U.uc.get_in_units(x, 'angstrom')
+
+
+def set_config(uc, cfg, seed=None):
+    if cfg == 'default':
+        uc.reset_units(**DEFAULT_UNITS)
+    elif cfg == 'SI':
+        uc.reset_units('SI')
+    elif cfg == 'nm':
+        uc.reset_units(length='nm', mass='amu', energy='eV', charge='e')
+    elif cfg == 'm':
+        uc.reset_units(length='m')
+    elif cfg == 'random':
+        uc.reset_units(seed=int(seed))
+    else:
+        raise ValueError(cfg)
+
+
+def enter_units(rec, uc, cfg, seed=None):
+    """Switch the working units; True if they are in force as requested."""
+    import numericalunits as nu
+    set_config(uc, cfg, seed)
+    U.active, U.uc, U.label = True, uc, cfg
+    f = float(uc.set_in_units(1.0, 'angstrom'))
+    U.factor = f
+    ok = np.isfinite(f) and f > 0 and abs(f / float(nu.angstrom) - 1.0) < 1e-12
+    if cfg in EXPECT_FACTOR:
+        ok = ok and abs(f / EXPECT_FACTOR[cfg] - 1.0) < 1e-12
+    else:
+        ok = ok and 1e-13 < f < 1e-7
+    if not ok:
+        rec.count('exempt:units-not-as-requested')
+    return bool(ok)
+
+
+def leave_units(uc):
+    try:
+        uc.reset_units(**DEFAULT_UNITS)
+    finally:
+        U.active, U.label, U.factor = False, 'default', 1.0
 
 
 # ---------------------------------------------------------------- plumbing
 def snapshot(system):
     props = OrderedDict((k, np.array(system.atoms.view[k], copy=True)) for k in system.atoms.view)
-    return M.Snap(system.box.vects, system.box.origin, system.pbc, system.symbols, props, masses=system.masses)
+    if U.active:
+        props['pos'] = np.array(to_A(props['pos']), dtype=float)
+    return M.Snap(to_A(system.box.vects), to_A(system.box.origin), system.pbc, system.symbols, props, masses=system.masses)
 
 
 def build_system(am, spec):
     kw = OrderedDict((k, np.array(v, copy=True)) for k, v in spec['props'].items())
-    atoms = am.Atoms(atype=np.array(spec['atype'], copy=True), pos=np.array(spec['pos'], dtype=float, copy=True), **kw)
-    v = spec['vects']
-    box = am.Box(avect=v[0].copy(), bvect=v[1].copy(), cvect=v[2].copy(), origin=np.array(spec['origin'], copy=True))
+    atoms = am.Atoms(atype=np.array(spec['atype'], copy=True), pos=np.array(to_wu(spec['pos']), dtype=float, copy=True), **kw)
+    v = np.array(to_wu(spec['vects']), dtype=float)
+    box = am.Box(avect=v[0].copy(), bvect=v[1].copy(), cvect=v[2].copy(), origin=np.array(to_wu(spec['origin']), dtype=float, copy=True))
     masses = None
     if spec['masses'] is not None:
         masses = list(spec['masses'])[:int(np.max(spec['atype']))]
     return am.System(atoms=atoms, box=box, pbc=spec['pbc'], symbols=(list(spec['symbols']) or None), masses=masses)
 
 
-def container(p, how):
+def container(p, how, length=False):
+    """``length``: p is a Cartesian length in angstrom (converted to the working units in force)."""
     p = np.asarray(p, float)
+    if length:
+        p = np.asarray(to_wu(p), float)
     if how == 'list':
         return [float(x) for x in p]
     if how == 'tuple':
@@ -93,7 +188,7 @@ def invoke(am, ptype, entry, system, sel, op, atol_arg, scale=False, db_arg=None
     elif spell_defaults:
         args['scale'] = False
     if atol_arg is not None:
-        args['atol'] = atol_arg
+        args['atol'] = to_wu(atol_arg)          # explicit tolerances are held in angstrom on the harness side
     elif spell_defaults:
         args['atol'] = None
     if spell_defaults and sel and ptype != 'i':          # the unused selector spelled out as None
@@ -139,9 +234,9 @@ def install_monitors(rec, am):
             pt = ptype_of(args, kwargs)
             rec.check(result.natoms - before.n == M.COUNT_CHANGE[pt], C_COUNT, f'monitor:{name}:count',
                       before=before.n, after=result.natoms)
-            same = (np.array_equal(result.box.vects, before.vects) and np.array_equal(result.box.origin, before.origin)
+            same = (np.array_equal(to_A(result.box.vects), before.vects) and np.array_equal(to_A(result.box.origin), before.origin)
                     and tuple(bool(x) for x in result.pbc) == before.pbc)
-            rec.check(same, C_CELL, f'monitor:{name}:cell', vects=result.box.vects, exp_vects=before.vects,
+            rec.check(same, C_CELL, f'monitor:{name}:cell', vects=to_A(result.box.vects), exp_vects=before.vects,
                       pbc=result.pbc, exp_pbc=before.pbc)
             shared = result is system or result.box is system.box or result.atoms is system.atoms \
                 or np.shares_memory(result.pbc, system.pbc) or np.shares_memory(result.box.vects, system.box.vects)
@@ -232,11 +327,14 @@ def check_result(rec, res, before, op, tag, tolpos):
     return bool(ok_all)
 
 
-def same_result(rec, a, b, ptype, tag, tolpos):
+def same_result(rec, a, b, ptype, tag, tolpos, clause=None, key=None):
     """Two selections of the same site give identical systems (positions of the
     defect atoms within the rounding of the relative->Cartesian conversion)."""
-    ok = a.n == b.n and list(a.props) == list(b.props) and a.symbols == b.symbols and a.pbc == b.pbc \
-        and np.array_equal(a.vects, b.vects) and np.array_equal(a.origin, b.origin)
+    ok = a.n == b.n and list(a.props) == list(b.props) and a.symbols == b.symbols and a.pbc == b.pbc
+    if clause == C_UNITS:          # cells rebuilt under other units agree to the rounding of the conversion
+        ok = ok and np.abs(a.vects - b.vects).max() <= tolpos and np.abs(a.origin - b.origin).max() <= tolpos
+    else:
+        ok = ok and np.array_equal(a.vects, b.vects) and np.array_equal(a.origin, b.origin)
     why = 'structure'
     if ok:
         for p in a.props:
@@ -251,7 +349,7 @@ def same_result(rec, a, b, ptype, tag, tolpos):
             elif not np.array_equal(x, y):
                 ok, why = False, p
                 break
-    rec.check(ok, C_SEL, f'{ptype}:{tag}:differs-from-reference', what=why)
+    return rec.check(ok, clause or C_SEL, key or f'{ptype}:{tag}:differs-from-reference', what=why)
 
 
 class Runner:
@@ -268,6 +366,8 @@ class Runner:
         self.osc = L + np.abs(self.before.origin).max()
         self.njudged_pos = 0
         self.last_result = None
+        self.results = {}            # tag -> snapshot of an accepted call (compared across working-unit stages)
+        self.outcomes = {}           # tag -> 'returned' | 'raised:<type>'
 
     # -- tolerances
     def tol(self, scale, relmax=1.0):
@@ -293,6 +393,7 @@ class Runner:
             res = invoke(self.am, pt, entry or self.entry, self.system, sel, op, a, scale=scale, db_arg=db_arg,
                          spell_defaults=self.spell_defaults)
         except Exception as e:
+            self.outcomes[f'{pt}:{tag}'] = 'raised:' + type(e).__name__
             if n1 and posform and is_axis_error(e):
                 rec.check(False, C_SEL, SINGLE_KEY, exception=e, ptype=pt, form=tag)
             else:
@@ -304,6 +405,8 @@ class Runner:
         rec.check(True, C_DONE, None)
         self.last_result = res
         rs = snapshot(res)
+        self.results[f'{pt}:{tag}'] = rs
+        self.outcomes[f'{pt}:{tag}'] = 'returned'
         check_result(rec, rs, self.before, op, tag, self.tol(scale, relmax))
         self.check_input(f'{pt}:{tag}')
         if posform:
@@ -322,6 +425,7 @@ class Runner:
             res = invoke(self.am, pt, entry or self.entry, self.system, sel, op, a, scale=scale, db_arg=db_arg, extra=extra,
                          spell_defaults=self.spell_defaults)
         except Exception as e:
+            self.outcomes[f'{pt}:{tag}'] = 'raised:' + type(e).__name__
             if is_axis_error(e):
                 rec.check(False, C_REFUSE, SINGLE_KEY if self.before.n == 1 and posform else f'{pt}:{tag}:crash-not-refusal',
                           exception=e)
@@ -329,6 +433,7 @@ class Runner:
                 rec.check(isinstance(e, kinds), C_REFUSE, f'{pt}:{tag}:wrong-exception', exception=e)
                 rec.refusal(f'{tag}:{type(e).__name__}')
         else:
+            self.outcomes[f'{pt}:{tag}'] = 'returned'
             rec.check(False, C_REFUSE, f'{pt}:{tag}:not-refused', natoms=res.natoms, sel={k: repr(v)[:80] for k, v in sel.items()})
         self.check_input(f'{pt}:{tag}:refusal')
         if posform:
@@ -370,8 +475,10 @@ def site_forms(R, rng, k, spec, syskind):
 
 def pos_arg(R, p, scale, cont, explicit):
     if explicit is not None:
+        if U.active and not scale:          # integer-valued angstrom coordinates are not integers in other units
+            return container(explicit, 'list', length=True)
         return explicit
-    return container(R.rel(p) if scale else p, cont)
+    return container(R.rel(p), cont) if scale else container(p, cont, length=True)
 
 
 def relmax_of(R, p):
@@ -407,7 +514,7 @@ def run_site_case(ctx, R, rng, ptype, spec, syskind, kwclass, i):
     def dbarg(scale, cont='array'):
         if ptype != 'db':
             return None
-        return container(dbrel if scale else db, cont)
+        return container(dbrel, cont) if scale else container(db, cont, length=True)
 
     # reference: by index
     ref = R.accept(op, 'index', dict(ptd_id=k), db_arg=dbarg(False))
@@ -478,9 +585,9 @@ def run_site_case(ctx, R, rng, ptype, spec, syskind, kwclass, i):
             idx, dec = R.judge(x, big)
             if dec and len(idx) >= 2:
                 rec.count('class:ambiguous-large-atol')
-                R.refuse(ptype, 'ambiguous-large-atol', dict(pos=container(x, 'array')), op=op, db_arg=dbarg(False),
+                R.refuse(ptype, 'ambiguous-large-atol', dict(pos=container(x, 'array', length=True)), op=op, db_arg=dbarg(False),
                          atol_arg=big, posform=True)
-    R.refuse(ptype, 'both-pos-and-index', dict(pos=container(x, 'list'), ptd_id=k), op=op, db_arg=dbarg(False))
+    R.refuse(ptype, 'both-pos-and-index', dict(pos=container(x, 'list', length=True), ptd_id=k), op=op, db_arg=dbarg(False))
     R.refuse(ptype, 'neither-pos-nor-index', {}, op=op, db_arg=dbarg(False))
     R.refuse(ptype, 'index-out-of-range', dict(ptd_id=n), op=op, db_arg=dbarg(False))
     R.refuse(ptype, 'index-out-of-range-negative', dict(ptd_id=-n - 1), op=op, db_arg=dbarg(False))
@@ -490,7 +597,7 @@ def run_site_case(ctx, R, rng, ptype, spec, syskind, kwclass, i):
         R.refuse('s', 'same-type', dict(ptd_id=k), op=same)
         idx, dec = R.judge(x)
         if dec and len(idx) == 1:
-            R.refuse('s', 'same-type-by-pos', dict(pos=container(x, 'array')), op=same, posform=True)
+            R.refuse('s', 'same-type-by-pos', dict(pos=container(x, 'array', length=True)), op=same, posform=True)
         if cur == 1:
             R.refuse('s', 'same-type-default', dict(ptd_id=k), op=dict(op, atype=None))
     if ptype == 'v':
@@ -574,15 +681,15 @@ def run_interstitial_case(ctx, R, rng, spec, syskind, kwclass, i):
             continue
         rec.count('class:occupied-site')
         R.refuse('i', tag, dict(pos=pos_arg(R, p, scale, 'array', explicit)), op=dict(type='i', kw=kw), scale=scale, posform=True)
-    R.refuse('i', 'dispatcher-index-with-interstitial', dict(pos=container(cfree, 'array')), op=dict(type='i', kw=kw),
+    R.refuse('i', 'dispatcher-index-with-interstitial', dict(pos=container(cfree, 'array', length=True)), op=dict(type='i', kw=kw),
              entry='dispatch', extra=dict(ptd_id=0), kinds=(AssertionError,))
-    R.refuse('i', 'dispatcher-db_vect-with-interstitial', dict(pos=container(cfree, 'array')), op=dict(type='i', kw=kw),
+    R.refuse('i', 'dispatcher-db_vect-with-interstitial', dict(pos=container(cfree, 'array', length=True)), op=dict(type='i', kw=kw),
              entry='dispatch', extra=dict(db_vect=[0.1, 0.0, 0.0]), kinds=(AssertionError,))
     return first_op or dict(type='i', kw=kw), R.njudged_pos
 
 
 # ---------------------------------------------------------------- histories
-def run_history(ctx, am, i):
+def run_history(ctx, am, i, label='history'):
     rec, rng = ctx.rec, ctx.rng
     nops = 2 + (i // 16) % 3
     t0, t1 = PTYPES[i % 4], PTYPES[(i // 4) % 4]
@@ -621,7 +728,7 @@ def run_history(ctx, am, i):
                 rec.count('exempt:history-step-skipped')
                 continue
             op = dict(type='i', site=None, pos=c, kw=kw)
-            sel = dict(pos=container(R.rel(c) if scale else c, 'array'))
+            sel = dict(pos=container(R.rel(c), 'array') if scale else container(c, 'array', length=True))
             rs = R.accept(op, 'history-' + ('rel' if scale else 'cart'), sel, scale=scale, relmax=relmax_of(R, c), posform=True)
             used = 'rel' if scale else 'cart'
         else:
@@ -648,9 +755,9 @@ def run_history(ctx, am, i):
                     rec.count('exempt:history-pos-form-fell-back-to-index')
             if pt == 'db':
                 op['db'] = GEN.gen_db(rng, b, k, dmin)
-                db_arg = np.linalg.solve(b.vects.T, op['db']) if (use_pos and scale) else op['db'].copy()
+                db_arg = np.linalg.solve(b.vects.T, op['db']) if (use_pos and scale) else np.asarray(to_wu(op['db'].copy()), float)
             if use_pos:
-                sel = dict(pos=container(R.rel(p) if scale else p, 'list'))
+                sel = dict(pos=container(R.rel(p), 'list') if scale else container(p, 'list', length=True))
                 used = form
             else:
                 sel = dict(ptd_id=k - n if form == 'negindex' else k)
@@ -694,14 +801,228 @@ def run_history(ctx, am, i):
         rec.check(surv == sorted(surv), C_SURV, 'history:order', ops=ops_log)
         rec.check(len(set(int(x) for x in go)) == len(go), C_OLD, 'history:old_id-unique', ops=ops_log, old_id=go[:16])
         rec.count('history:composed-%d' % ok_steps)
-        rec.count('history:composed')
+        rec.count(label + ':composed')
     ok0, what = M.snap_equal(s0, snapshot(system))
     rec.check(ok0, C_INPUT, 'history:first-system-modified', what=what)
-    rec.case(('history', len(types), t0, t1, syskind), nontrivial=ok_steps >= 2,
-             fp=fingerprint(s0.vects, s0.pos, s0.props['atype'], [list(o) for o in ops_log]))
+    rec.case((label, len(types), t0, t1, syskind) + ((U.label,) if U.active else ()), nontrivial=ok_steps >= 2,
+             fp=fingerprint(s0.vects, s0.pos, s0.props['atype'], [list(o) for o in ops_log], U.label))
     if i < 12:
         rec.sample(dict(ops=ops_log, natoms0=s0.n, natoms_final=fin.n, old_id_final=fin.props.get('old_id'),
                         pbc=s0.pbc, cell=kind))
+
+
+# ---------------------------------------------------------------- working-unit configurations and switches
+UNIT_SYSKINDS = ['random', 'crystal', 'unwrapped', 'pair', 'tiny']
+DOC_ATOL = 0.01          # angstrom: the documented default search tolerance
+
+
+def tolerance_probes(R, rng, ptype, phase):
+    """The documented default tolerance is 0.01 angstrom whatever the working units and whatever was called
+    before: with atol omitted and with atol=uc.set_in_units(0.01,'angstrom') a position 0.005 A from a site is
+    found and one 0.05 A away is not (for an interstitial: occupied / free); the two spellings give the same
+    result; a preceding call with a large explicit tolerance does not stick.  Returns the number of judged probes."""
+    rec, b = R.rec, R.before
+    n = b.n
+    if n < 2:
+        return 0
+    k = int(rng.integers(0, n))
+    x = b.pos[k]
+    u = GEN.unit_vector(rng)
+    dmin = M.min_pair_sep(b.pos, b.vects, b.pbc)
+    op = dict(type=ptype, site=k, kw={})
+    db = dbrel = None
+    if ptype == 's':
+        op['atype'] = GEN.choose_sub_atype(rng, b, k, False)
+    if ptype == 'db':
+        db = GEN.gen_db(rng, b, k, dmin)
+        dbrel = np.linalg.solve(b.vects.T, db)
+        op['db'] = db
+
+    def dbarg(scale):
+        if ptype != 'db':
+            return None
+        return container(dbrel, 'array') if scale else container(db, 'array', length=True)
+
+    forms = [('cart', np.zeros(3), False), ('rel', np.zeros(3), True)]
+    nv = GEN.image_shift(rng, b.pbc, periodic=True)
+    if nv is not None:
+        forms.append(('image', nv @ b.vects, False))
+    judged = 0
+    ref = None
+    if ptype != 'i':
+        ref = R.accept(op, f'units-{phase}:index', dict(ptd_id=k), db_arg=dbarg(False), atol_arg=None)
+    for form, sh, scale in forms:
+        p_in = x + sh + 0.5 * DOC_ATOL * u
+        p_out = x + sh + 5.0 * DOC_ATOL * u
+        i_in, d_in = R.judge(p_in, DOC_ATOL)
+        i_out, d_out = R.judge(p_out, DOC_ATOL)
+        if not (d_in and d_out and len(i_in) == 1 and i_in[0] == k and len(i_out) == 0):
+            rec.count('exempt:units-probe-not-decisive')
+            continue
+        # a call with a large explicit tolerance first: whatever it does (judged by the oracle), it must not stick
+        big = 20.0 * DOC_ATOL
+        i_big, d_big = R.judge(p_out, big)
+        if d_big:
+            sel = dict(pos=pos_arg(R, p_out, scale, 'array', None))
+            tag = f'units-{phase}:large-atol-first-{form}'
+            if ptype == 'i':
+                if len(i_big) == 0:
+                    R.accept(dict(type='i', site=None, pos=p_out, kw={}), tag, sel, scale=scale, atol_arg=big,
+                             relmax=relmax_of(R, p_out), posform=True)
+                else:
+                    R.refuse('i', tag, sel, op=dict(type='i', kw={}), scale=scale, atol_arg=big, posform=True)
+            elif len(i_big) == 1 and i_big[0] == k:
+                R.accept(op, tag, sel, scale=scale, db_arg=dbarg(scale), atol_arg=big, relmax=relmax_of(R, p_out), posform=True)
+            elif len(i_big) != 1:
+                R.refuse(ptype, tag, sel, op=op, scale=scale, db_arg=dbarg(scale), atol_arg=big, posform=True)
+            rec.count('units:large-explicit-atol-before-default')
+        got = {}
+        for aname, a in (('default', None), ('explicit', DOC_ATOL)):
+            tin = f'units-{phase}:{aname}-atol-0.005A-{form}'
+            tout = f'units-{phase}:{aname}-atol-0.05A-{form}'
+            sin = dict(pos=pos_arg(R, p_in, scale, 'list', None))
+            sout = dict(pos=pos_arg(R, p_out, scale, 'array', None))
+            if ptype == 'i':
+                # 0.005 A from an atom is an occupied site, 0.05 A away is a free one
+                R.refuse('i', tin, sin, op=dict(type='i', kw={}), scale=scale, atol_arg=a, posform=True)
+                got[aname] = R.accept(dict(type='i', site=None, pos=p_out, kw={}), tout, sout, scale=scale, atol_arg=a,
+                                      relmax=relmax_of(R, p_out), posform=True)
+            else:
+                got[aname] = R.accept(op, tin, sin, scale=scale, db_arg=dbarg(scale), atol_arg=a,
+                                      relmax=relmax_of(R, p_in), posform=True)
+                R.refuse(ptype, tout, sout, op=op, scale=scale, db_arg=dbarg(scale), atol_arg=a, posform=True)
+                if got[aname] is not None and ref is not None:
+                    same_result(rec, got[aname], ref, ptype, tin, R.tol(scale, relmax_of(R, p_in)))
+            rec.count(f'units:{aname}-atol-found-and-refused')
+            rec.count(f'units:{phase}:{aname}-atol-judged')
+        if got.get('default') is not None and got.get('explicit') is not None:
+            same_result(rec, got['default'], got['explicit'], ptype, f'units-{phase}:{form}', 0.0, clause=C_UNITS,
+                        key=f'{ptype}:units-{phase}:default-atol-differs-from-explicit-0.01A')
+            rec.count('units:default-vs-explicit-compared')
+        judged += 1
+    return judged
+
+
+def compare_stages(rec, R0, R1, ptype, tol):
+    """Same system description, same requests, other working units (and other call history): same outcome."""
+    for tag, out0 in R0.outcomes.items():
+        if tag not in R1.outcomes:
+            continue
+        rec.check(out0 == R1.outcomes[tag], C_UNITS, f'{ptype}:units:outcome-differs-between-configurations',
+                  request=tag, first=out0, later=R1.outcomes[tag])
+        if tag in R0.results and tag in R1.results:
+            same_result(rec, R1.results[tag], R0.results[tag], ptype, tag, tol, clause=C_UNITS,
+                        key=f'{ptype}:units:result-differs-between-configurations')
+            rec.count('units:results-compared-across-configurations')
+
+
+def stage_list(i):
+    a, b = UNIT_CONFIGS[i % 5], UNIT_CONFIGS[(i // 5) % 5]
+    stages = [a, b]
+    if (i // 25) % 2 == 1:
+        stages.append(a)
+    return stages
+
+
+def run_units_case(ctx, am, i):
+    import atomman.unitconvert as uc
+    rec, rng = ctx.rec, ctx.rng
+    stages = stage_list(i)
+    ptype = PTYPES[i % 4]
+    entry = ['direct', 'dispatch'][(i // 4) % 2]
+    syskind = UNIT_SYSKINDS[(i // 2) % len(UNIT_SYSKINDS)]
+    kind, oc, _ = cells.stratified(i)
+    pbc = cells.PBCS[(i // 4) % 8]
+    propclass = GEN.PROPCLASSES[(i // 3) % len(GEN.PROPCLASSES)]
+    kwclass = GEN.KWCLASSES[(i // 2) % 3]
+    atolclass = GEN.ATOLCLASSES[(i // 7) % 3]
+    ntypes = 1 + (i // 7) % 3
+    cell = GEN.prepare_cell(rng, syskind, kind, oc, 1.0)
+    spec = GEN.gen_system(rng, syskind, cell, pbc, ntypes, propclass, atolclass, nmax=12)          # lengths in angstrom
+    sub = int(rng.integers(0, 2 ** 62))
+    seeds = [int(x) for x in rng.integers(1, 2 ** 31 - 1, len(stages))]
+    runners = []
+    prev = None          # (System built in the previous stage, its factor)
+    judged = 0
+    op = dict(type=ptype)
+    try:
+        for st, cfg in enumerate(stages):
+            if not enter_units(rec, uc, cfg, seeds[st]):
+                break
+            f = U.factor
+            phase = 'first' if st == 0 else 'after-switch'
+            rec.count(f'units:stage:{cfg}')
+            if st > 0:
+                rec.count(f'units:switch:{stages[st - 1]}->{cfg}')
+                if stages[st - 1] != cfg:
+                    rec.count('units:switches')
+            system = None
+            with ctx.guard('System can be built from the generated description', 'harness:build'):
+                system = build_system(am, spec)
+            if system is None:
+                break
+            # (1) the standard single-case workload, same requests at every stage
+            srng = np.random.default_rng(sub)
+            R = Runner(ctx, am, system, spec['atol'], spec['atol_arg'], entry, spec['L'], spell_defaults=(i // 9) % 2 == 1)
+            if ptype == 'i':
+                op, nj = run_interstitial_case(ctx, R, srng, spec, syskind, kwclass, i)
+            else:
+                op, nj = run_site_case(ctx, R, srng, ptype, spec, syskind, kwclass, i)
+            judged += nj
+            # (2) the documented default tolerance, before and after the switch
+            nprobe = tolerance_probes(R, np.random.default_rng(sub + 1), ptype, phase)
+            judged += nprobe
+            R.check_input('units:stage-end')
+            if runners:
+                compare_stages(rec, runners[0], R, ptype, 1e-9 * (3 * spec['L'] + np.abs(spec['origin']).max()))
+            runners.append(R)
+            # (3) the System object of the previous stage read under the units now in force (the same cell, rescaled)
+            if prev is not None:
+                ratio = prev[1] / f
+                if spec['dmin'] * ratio >= 0.3 and spec['L'] * ratio <= 1e5 and np.isfinite(spec['dmin']):
+                    R2 = Runner(ctx, am, prev[0], DOC_ATOL, None, entry, spec['L'] * ratio)
+                    nc = tolerance_probes(R2, np.random.default_rng(sub + 2), ptype, 'carried')
+                    R2.check_input('units:carried')
+                    if nc:
+                        rec.count('units:carried-system-judged', nc)
+                else:
+                    rec.count('exempt:carried-system-out-of-range')
+            prev = (system, f)
+    finally:
+        leave_units(uc)
+    b0 = runners[0].before if runners else None
+    rec.case(('units', ptype, entry, syskind, kind, oc, tuple(stages), propclass, kwclass),
+             nontrivial=spec['n'] >= 2 and judged > 0 and len(runners) == len(stages),
+             fp=fingerprint(spec['vects'], spec['pos'], spec['atype'], ptype, stages, op.get('site')))
+    rec.count(f'class:units:type:{ptype}:{entry}')
+    if len(runners) == len(stages):
+        rec.count('units:cases-completed')
+    if i < 25 and b0 is not None:
+        rec.sample(dict(stages=stages, ptype=ptype, entry=entry, system=syskind, natoms=spec['n'], cell=kind, origin=oc,
+                        pbc=pbc, atol=spec['atol_arg'], judged=judged, random_seeds=seeds))
+
+
+WARMUP = dict(vects=4.0 * np.eye(3), origin=np.zeros(3), pos=np.array([[0.0, 0.0, 0.0], [2.0, 2.0, 2.0]]),
+              atype=np.array([1, 1]), props=OrderedDict(), pbc=(True, True, True), symbols=(), masses=None)
+
+
+def run_units_history(ctx, am, i):
+    """Chained insertions wholly under one configuration, after a default-tolerance call under another one."""
+    import atomman.unitconvert as uc
+    rec = ctx.rec
+    cfg, before = UNIT_CONFIGS[i % 5], UNIT_CONFIGS[(i // 5) % 5]
+    seeds = [int(x) for x in ctx.rng.integers(1, 2 ** 31 - 1, 2)]
+    u = GEN.unit_vector(ctx.rng)
+    try:
+        if enter_units(rec, uc, before, seeds[0]):
+            R = Runner(ctx, am, build_system(am, WARMUP), DOC_ATOL, None, 'direct', 4.0)
+            R.accept(dict(type='v', site=1, kw={}), 'units-history-warmup',
+                     dict(pos=container(WARMUP['pos'][1] + 0.5 * DOC_ATOL * u, 'array', length=True)), atol_arg=None, posform=True)
+            if enter_units(rec, uc, cfg, seeds[1]):
+                rec.count(f'units-history:{cfg}')
+                run_history(ctx, am, i, label='units-history')
+    finally:
+        leave_units(uc)
 
 
 # ---------------------------------------------------------------- entry
@@ -778,8 +1099,14 @@ def run(ctx):
         n_hist = ctx.pick(192, 1920)
         for i in ctx.cases('history', n_hist):
             run_history(ctx, am, i)
+
+        for i in ctx.cases('units', ctx.pick(200, 1500)):
+            run_units_case(ctx, am, i)
+        for i in ctx.cases('units-history', ctx.pick(50, 400)):
+            run_units_history(ctx, am, i)
     finally:
-        pass
+        import atomman.unitconvert as uc
+        leave_units(uc)          # the package default, whatever happened above
 
     for k, v_ in monitor.calls.items():
         if isinstance(v_, int):
@@ -808,6 +1135,26 @@ def run(ctx):
     rec.floor('accept:s:negindex', 30)
     rec.floor('accept:db:negindex', 30)
     rec.floor('refuse:s:same-type', 30)
+    # working units
+    rec.floor('clause:' + C_UNITS, 500)
+    rec.floor('units:cases-completed', 150)
+    rec.floor('units:switches', 150)
+    for a in UNIT_CONFIGS:
+        rec.floor(f'units:stage:{a}', 60)
+        rec.floor(f'units-history:{a}', 8)
+        for b in UNIT_CONFIGS:
+            rec.floor(f'units:switch:{a}->{b}', 6)
+    for ph in ('first', 'after-switch', 'carried'):
+        rec.floor(f'units:{ph}:default-atol-judged', 40)
+        rec.floor(f'units:{ph}:explicit-atol-judged', 40)
+    rec.floor('units:default-vs-explicit-compared', 300)
+    rec.floor('units:large-explicit-atol-before-default', 200)
+    rec.floor('units:results-compared-across-configurations', 1000)
+    rec.floor('units:carried-system-judged', 40)
+    rec.floor('units-history:composed', 30)
+    for pt in PTYPES:
+        for en in ('direct', 'dispatch'):
+            rec.floor(f'class:units:type:{pt}:{en}', 15)
     for name, nocc in (('reach:negative-index-normalisation', 3), ('reach:refusal-not-unique', 3), ('reach:refusal-occupied', 1),
                        ('reach:refusal-same-type', 1), ('reach:refusal-both', 3), ('reach:refusal-invalid-index', 3),
                        ('reach:old_id-created', 4)):
